@@ -56,6 +56,7 @@ type Line struct {
 	Name   string            `json:"name"`
 	Kind   string            `json:"kind"`
 	Note   string            `json:"note"`
+	Mut    bool              `json:"mut"`
 	Exp    json.RawMessage   `json:"exp"`
 	Dev    []json.RawMessage `json:"dev"`
 	raw    string
@@ -122,6 +123,7 @@ type session struct {
 	lines  []*Line
 	pre    []string
 	panics []string
+	keepVM bool // the runtime itself is the subject (a member of a group): never replace it
 }
 
 // open builds the runtime of a configuration and registers the objects of the table.
@@ -146,6 +148,22 @@ func open(cfg Config, lines []*Line) (s *session, err error) {
 			return nil, fmt.Errorf("mutation %q: %v", cfg.Mutate, err)
 		}
 	}
+	if s, err = attach(cfg, vm, lines); err != nil {
+		return nil, err
+	}
+	if cfg.Copy == "after" {
+		s.vm = vm.Copy()
+	}
+	return s, nil
+}
+
+// attach loads the helpers into an existing runtime and registers the objects of the table.
+func attach(cfg Config, vm *otto.Otto, lines []*Line) (s *session, err error) {
+	defer func() {
+		if r := recover(); r != nil {
+			err = fmt.Errorf("GO PANIC while preparing %s: %v", cfg.Name, r)
+		}
+	}()
 	// the global names that exist before the harness adds its own
 	var pre []string
 	if v, err := vm.Run("Object.getOwnPropertyNames(this).join(',')"); err == nil {
@@ -162,9 +180,6 @@ func open(cfg Config, lines []*Line) (s *session, err error) {
 		if _, err := vm.Call("REGISTER", nil, l.ID, l.Js, l.Vo, l.Vn); err != nil {
 			return nil, fmt.Errorf("REGISTER %s: %v", l.ID, err)
 		}
-	}
-	if cfg.Copy == "after" {
-		s.vm = vm.Copy()
 	}
 	return s, nil
 }
@@ -207,6 +222,9 @@ func (s *session) observe(l *Line) (out string, err error) {
 
 // rebuild replaces the runtime after a Go panic went through it.
 func (s *session) rebuild() error {
+	if s.keepVM {
+		return nil
+	}
 	s2, err := open(s.cfg, s.lines)
 	if err != nil {
 		return err
@@ -305,7 +323,16 @@ func cfgText(c *core.Ctx) string {
 	return fmt.Sprintf("CONSTANTS\n OpenDev = %s\nINIT Init\nNEXT Next\nINVARIANT Emit\nCHECK_DEADLOCK FALSE\n", core.TLASet(ids))
 }
 
-// Generate runs TLC on spec/C14.tla and returns the lines ordered by index.
+// Mutated holds what spec/C14.tla says about a runtime that ran the structural mutation script.
+type Mutated struct {
+	Script string
+	Lines  []*Line
+}
+
+var mutated Mutated
+
+// Generate runs TLC on spec/C14.tla and returns the lines of the table ordered by index
+// (the lines of the mutated table and the mutation script go to the variable mutated).
 func Generate(c *core.Ctx) ([]*Line, *tlc.Result, error) {
 	var lines []*Line
 	var perr error
@@ -329,7 +356,22 @@ func Generate(c *core.Ctx) ([]*Line, *tlc.Result, error) {
 			return nil, res, fmt.Errorf("lines are not 1..N: position %d has index %d", i+1, l.I)
 		}
 	}
-	return lines, res, nil
+	var base []*Line
+	mutated = Mutated{}
+	for _, l := range lines {
+		switch {
+		case l.K == "mutation":
+			mutated.Script = l.Js
+		case l.Mut:
+			mutated.Lines = append(mutated.Lines, l)
+		default:
+			base = append(base, l)
+		}
+	}
+	if mutated.Script == "" || len(mutated.Lines) == 0 {
+		return nil, res, fmt.Errorf("the generator printed no mutation")
+	}
+	return base, res, nil
 }
 
 func configs(thorough bool) []Config {
@@ -477,6 +519,13 @@ func Check(c *core.Ctx) (map[string]any, []string, error) {
 		}
 	}
 
+	// 2b. runtimes are independent: a structural change of the library in one runtime of a group
+	// {original, copy, copy of the copy} leaves the shape of every other one (and of later copies) alone
+	groups, err := groupFamily(c, lines)
+	if err != nil {
+		return nil, nil, err
+	}
+
 	// 3. informative: what the implementation adds to the table (clause 16 allows it)
 	var extras map[string][]string
 	json.Unmarshal([]byte(results[0].xtra), &extras)
@@ -552,6 +601,7 @@ func Check(c *core.Ctx) (map[string]any, []string, error) {
 		"conforming":                    conform,
 		"conforming_to_known_deviation": devHits,
 		"shape_dumps_compared":          shapeCmp,
+		"copy_groups":                   groups,
 		"shape_dump_bytes":              len(results[0].dump),
 		"extras_not_in_es5":             map[string]any{"count": nExtra, "by_owner": extraList},
 		"distinguishing_calls":          dist,
